@@ -30,6 +30,19 @@ type rServer struct {
 	version int
 	reqs    int
 	hangs   int
+	invReqs int    // requests seen in the current invocation
+	path    string // where the Taskfile lives
+	nested  bool   // the Taskfile includes http://sim.test/inner.yml (plain http)
+}
+
+// the default Taskfile names a directory-style URL is probed for (documented list)
+var rDefaultNames = []string{"Taskfile.yml", "taskfile.yml", "Taskfile.yaml", "taskfile.yaml", "Taskfile.dist.yml", "taskfile.dist.yml", "Taskfile.dist.yaml", "taskfile.dist.yaml"}
+
+func rContentN(v int, nested bool) string {
+	if nested {
+		return fmt.Sprintf("version: '3'\nincludes:\n  inner: http://sim.test/inner.yml\ntasks:\n  hello:\n    cmds:\n      - echo \"R|v%d\"\n      - task: inner:hi\n", v)
+	}
+	return rContent(v)
 }
 
 func rContent(v int) string {
@@ -50,6 +63,7 @@ func (b *shortBody) Close() error { return nil }
 
 func (s *rServer) RoundTrip(req *http.Request) (*http.Response, error) {
 	s.reqs++
+	s.invReqs++
 	s.sim.Point(vs.SiteNet)
 	mk := func(code int, ctype, body string) *http.Response {
 		h := http.Header{}
@@ -63,10 +77,21 @@ func (s *rServer) RoundTrip(req *http.Request) (*http.Response, error) {
 		}
 		return r
 	}
-	if req.URL.Path != "/tf.yml" {
+	state := s.state
+	if state == "hang-late" {
+		// the first request of an invocation is answered, every later one hangs
+		state = "up"
+		if s.invReqs > 1 {
+			state = "hang"
+		}
+	}
+	if req.URL.Path == "/inner.yml" && (state == "up" || state == "hang-get") {
+		return mk(200, "text/yaml", "version: '3'\ntasks:\n  hi:\n    cmds:\n      - echo \"R|inner\"\n"), nil
+	}
+	if req.URL.Path != s.path && (state == "up" || state == "hang-get" || state == "ctype" || state == "short" || state == "500") {
 		return mk(404, "text/plain", "not found"), nil
 	}
-	switch s.state {
+	switch state {
 	case "refuse":
 		return nil, fmt.Errorf("dial tcp 203.0.113.1:443: connect: connection refused")
 	case "hang-get":
@@ -89,13 +114,13 @@ func (s *rServer) RoundTrip(req *http.Request) (*http.Response, error) {
 	case "short":
 		r := mk(200, "text/yaml", "")
 		if req.Method != "HEAD" {
-			c := rContent(s.version)
+			c := rContentN(s.version, s.nested)
 			r.Body = &shortBody{data: []byte(c[:len(c)/2])}
 			r.ContentLength = int64(len(c))
 		}
 		return r, nil
 	}
-	return mk(200, "text/yaml", rContent(s.version)), nil
+	return mk(200, "text/yaml", rContentN(s.version, s.nested)), nil
 }
 
 type rStep struct {
@@ -115,6 +140,8 @@ type rProg struct {
 	Optional bool   // the remote include is marked optional: true
 	Scheme   string // https, http
 	Insecure bool
+	DirURL   int  // 0: the include names the file; k>0: it names a directory and the file is the k-th default name
+	Nested   bool // (https only) the remote Taskfile includes a plain-http Taskfile: refused without --insecure
 	Steps    []rStep
 }
 
@@ -125,6 +152,12 @@ func genR(ch *vs.Choices, tier string) *rProg {
 		p.Insecure = ch.Bool(1, 2)
 	}
 	p.Optional = ch.Bool(1, 4)
+	if ch.Bool(1, 4) {
+		p.DirURL = 1 + ch.Draw(len(rDefaultNames))
+	}
+	if p.Scheme == "https" && ch.Bool(1, 12) {
+		p.Nested = true
+	}
 	n := 3 + ch.Draw(6)
 	if tier == "thorough" {
 		n = 3 + ch.Draw(10)
@@ -137,7 +170,7 @@ func genR(ch *vs.Choices, tier string) *rProg {
 		}
 		switch s.Kind {
 		case "server":
-			s.Kind = "server:" + []string{"up", "up", "refuse", "hang", "404", "500", "ctype", "short", "hang-get"}[ch.Draw(9)]
+			s.Kind = "server:" + []string{"up", "up", "refuse", "hang", "404", "500", "ctype", "short", "hang-get", "hang-late"}[ch.Draw(10)]
 		case "adv":
 			s.Adv = []time.Duration{time.Second, time.Minute, time.Hour, 25 * time.Hour, 24 * 8 * time.Hour}[ch.Draw(5)]
 		case "corrupt":
@@ -197,12 +230,17 @@ func runR(t *testing.T, ch *vs.Choices, prop, tier string, render bool) *vs.RunO
 		hs = append(hs, s.String())
 	}
 	url := p.Scheme + "://sim.test/tf.yml"
+	srvPath := "/tf.yml"
+	if p.DirURL > 0 {
+		url = p.Scheme + "://sim.test/lib/"
+		srvPath = "/lib/" + rDefaultNames[p.DirURL-1]
+	}
 	rootYAML := fmt.Sprintf("version: '3'\nsilent: true\nincludes:\n  r: %s\ntasks:\n  default:\n    cmds:\n      - task: r:hello\n", url)
 	if p.Optional {
 		// optional only excuses an include that cannot be located; it must not excuse a refused approval
 		rootYAML = fmt.Sprintf("version: '3'\nsilent: true\nincludes:\n  r:\n    taskfile: %s\n    optional: true\ntasks:\n  default:\n    cmds:\n      - task: r:hello\n  local:\n    cmds:\n      - echo \"R|local\"\n", url)
 	}
-	out.Shape = vs.HashString(rootYAML + strings.Join(hs, "\n") + fmt.Sprint(p.Insecure))
+	out.Shape = vs.HashString(rootYAML + strings.Join(hs, "\n") + fmt.Sprint(p.Insecure, p.DirURL, p.Nested))
 	dir, err := newRunDir()
 	if err != nil {
 		out.HarnessError = err.Error()
@@ -241,7 +279,7 @@ func runR(t *testing.T, ch *vs.Choices, prop, tier string, render bool) *vs.RunO
 			vs.S = sim
 			defer func() { vs.S = nil }()
 			start := time.Now()
-			srv := &rServer{sim: sim, state: "up", version: 1}
+			srv := &rServer{sim: sim, state: "up", version: 1, path: srvPath, nested: p.Nested}
 			http.DefaultClient.Transport = srv
 			// model
 			approved := 0      // version whose checksum the user last approved (0 = none)
@@ -326,6 +364,7 @@ func runR(t *testing.T, ch *vs.Choices, prop, tier string, render bool) *vs.RunO
 					sim.Triggers = []*vs.Trigger{trig}
 				}
 				var runErr, setupErr error
+				srv.invReqs = 0
 				before := len(sim.Events)
 				root := sim.Go(gid, func() {
 					e := task.NewExecutor(task.WithDir(dir), task.WithStdin(stdin), task.WithStdout(stdout), task.WithStderr(stderr),
@@ -355,6 +394,9 @@ func runR(t *testing.T, ch *vs.Choices, prop, tier string, render bool) *vs.RunO
 				code, _ := mapExit(err, false)
 				ran := 0
 				for _, ev := range sim.Events[before:] {
+					if ev.Stream == gid && strings.Contains(ev.Line, "R|inner") {
+						out.Violate("C20", "insecure_http_ran|nested_include", "%s: a Taskfile fetched over plain http (included by the https one) was executed without --insecure", desc)
+					}
 					if ev.Stream == gid && strings.HasPrefix(ev.Line, "R|v") {
 						fmt.Sscanf(ev.Line, "R|v%d", &ran)
 					}
@@ -381,6 +423,12 @@ func runR(t *testing.T, ch *vs.Choices, prop, tier string, render bool) *vs.RunO
 				if (prompted > 0 && s.Answer == "y") || assumedYes > 0 {
 					approved = srv.version
 					out.Hit("approval_event")
+					if srv.state == "ctype" {
+						// (directory-style URL: the probe for default names accepts any 200 answer) what was shown and
+						// approved is the HTML page, not a Taskfile version: it replaces whatever was cached
+						approved, cacheGood = -1, false
+						out.Hit("approved_non_taskfile_content")
+					}
 				}
 				fetched := !s.Offline && srv.state == "up"
 				// ---- safety --------------------------------------------------------------------------
@@ -392,6 +440,17 @@ func runR(t *testing.T, ch *vs.Choices, prop, tier string, render bool) *vs.RunO
 						// missing task, not as 105; what matters is that nothing remote ran)
 						out.Violate("C20", "insecure_http_status", "%s: plain http without --insecure: exit %d, want 105", desc, code)
 					}
+					continue
+				}
+				if p.Nested {
+					// the included plain-http Taskfile is refused without --insecure: no invocation can succeed and none
+					// may run anything remote -- before or after the outer file was approved or cached
+					if ran != 0 {
+						out.Violate("C20", "insecure_http_ran|nested_include", "%s: the https Taskfile includes a plain-http one and --insecure is not given, but v%d was executed", desc, ran)
+					} else if !crashed && code == 0 {
+						out.Violate("C20", "insecure_http_status|nested_include", "%s: the https Taskfile includes a plain-http one and --insecure is not given, but the invocation exited 0", desc)
+					}
+					out.Hit("nested_plain_http_include")
 					continue
 				}
 				if ran != 0 && ran != approved {
@@ -411,7 +470,7 @@ func runR(t *testing.T, ch *vs.Choices, prop, tier string, render bool) *vs.RunO
 					}
 				}
 				// ---- availability ----------------------------------------------------------------------
-				netDown := srv.state == "refuse" || srv.state == "hang" || srv.state == "hang-get"
+				netDown := srv.state == "refuse" || srv.state == "hang" || srv.state == "hang-get" || srv.state == "hang-late"
 				if cacheGood && !crashed && (s.Offline || netDown) {
 					if ran != cacheVersion || code != 0 {
 						how := "offline"
@@ -455,7 +514,7 @@ func runR(t *testing.T, ch *vs.Choices, prop, tier string, render bool) *vs.RunO
 	}
 	out.NonTrivial = nRun >= 2
 	if render {
-		out.Rendered = map[string]any{"files": map[string]string{"Taskfile.yml": rootYAML}, "config": map[string]any{"insecure": p.Insecure}, "history": hs, "trace": trace, "strategy": out.Strategy, "schedule": log, "steps": out.Steps}
+		out.Rendered = map[string]any{"files": map[string]string{"Taskfile.yml": rootYAML}, "config": map[string]any{"insecure": p.Insecure, "dir_url": p.DirURL, "nested": p.Nested}, "history": hs, "trace": trace, "strategy": out.Strategy, "schedule": log, "steps": out.Steps}
 	}
 	_ = stderrors.Is
 	return out
